@@ -262,6 +262,7 @@ pub fn leaves() -> Vec<Leaf> {
         nosema(leaf("barrier_all", Stmt::Barrier(vec![]))),
         leaf("delay", Stmt::Delay(Expr::Timing(s("10"), false, "ns"), vec![opd("r")])),
         leaf("delay_id", Stmt::Delay(id("d"), vec![opd_i("q", 0), opd_i("q", 1)])),
+        nosema(leaf("delay_bare", Stmt::Delay(Expr::Timing(s("10"), false, "ns"), vec![]))),
         leaf("delay_micro", Stmt::Delay(Expr::Timing(s("20"), false, "µs"), vec![opd("r")])),
         leaf("decl_duration_float", Stmt::Decl { konst: false, ty: Ty::plain("duration"), name: s("v30"), init: Some(Expr::Timing(s("2.5"), true, "µs")) }),
         leaf("for_set_repeat", Stmt::For { ty: Ty::plain("int"), var: s("i9"), iter: ForIter::Set(vec![int(1), int(1), int(2)]), body: Body::block(vec![]) }),
